@@ -239,6 +239,20 @@ def each_panel(feat="v3"):
     return list(PN.table(feat).values())
 
 
+def whole_panel_partials(p, rnd):
+    """partial updates whose window is the WHOLE panel and one that starts at the left edge: the
+    windows a driver may confuse with 'full frame' (cached full-window flags) and the ones drivers
+    with coarse X encodings can actually address"""
+    W8 = p.w8
+    out = []
+    for op in ("part", "pold", "part2", "pachro"):
+        if p.has(op):
+            out.append([f"{op},r:{rnd.randint(1, 999)}:{W8 // 8 * p.h},0,0,{W8},{p.h}"])
+            out.append([f"{op},r:{rnd.randint(1, 999)}:{8 * 16},0,0,64,16"])
+            break
+    return out
+
+
 def gen_histories(tier, seed, tag, probe=True, scribble_twins=False, maxlen=None):
     """all histories of length <= 2 (quick) / <= 3..4 sampled (thorough) over the alphabet,
     followed by a probe full-frame update with a position-coded image and a display"""
@@ -247,7 +261,7 @@ def gen_histories(tier, seed, tag, probe=True, scribble_twins=False, maxlen=None
     stats = {"histories": 0, "len": {}}
     for p in each_panel():
         big = p.n > 20000
-        A = alphabet(p, rnd, small=big)
+        A = alphabet(p, rnd, small=big) + whole_panel_partials(p, rnd)
         hs = [[]] + [[u] for u in A]
         pairs = [[u, v] for u in A for v in A]
         if tier == "quick":
@@ -281,7 +295,56 @@ def gen_histories(tier, seed, tag, probe=True, scribble_twins=False, maxlen=None
                 lines.append(PN.line(sid, p, ops, sched=sched_for(rnd)))
             stats["histories"] += 1
             stats["len"][len(h)] = stats["len"].get(len(h), 0) + 1
+        if tag == "c02" and probe:
+            # setting twins: the same probe after the history's SETTING calls only (background, LUT,
+            # refresh mode, border) — what the update must leave in every plane it writes
+            keys = {settings_key(l.split(" ops=", 1)[1].split(";")) for l in lines if f"panel={p.name} " in l}
+            for j, key in enumerate(sorted(keys)):
+                lines.append(PN.line(f"c02tw-{p.name}-{j}", p, ["new"] + list(key) + [f"upd,pos:{p.frame()}", "disp"], sched=sched_for(rnd)))
     return {"v3": lines, "stats": stats}
+
+
+SETTING_OPS = ("bg", "lut", "refresh", "border")
+
+
+def settings_key(ops):
+    return tuple(o for o in ops if o.split(",")[0] in SETTING_OPS)
+
+
+def post_c02(outputs, all_lines):
+    """every plane that the probe update writes after the history's setting calls alone must hold
+    the same bytes after the whole history (a plane the update is supposed to fill but skips, or
+    fills differently, because of state an earlier call left behind)"""
+    notes = {}
+    for feat, o in outputs:
+        if o.startswith("O ") and " C02 " in o:
+            f = o.split(" ")
+            d = dict(x.split("=", 1) for x in f[3:] if "=" in x)
+            notes[f[1]] = d
+    twins = {}
+    for (feat, sid), line in all_lines.items():
+        if sid.startswith("c02tw-") or sid.startswith("wtw-"):
+            mp = re.search(r"panel=(\S+)", line)
+            ops = line.split(" ops=", 1)[1].split(";")
+            twins[(mp.group(1), settings_key(ops))] = sid
+    fails, n = [], 0
+    for (feat, sid), line in all_lines.items():
+        if sid.startswith("c02tw-") or sid.startswith("wtw-") or sid not in notes or "panel=epd12in48b_v2" in line:
+            continue
+        mp = re.search(r"panel=(\S+)", line)
+        ops = line.split(" ops=", 1)[1].split(";")
+        # protocol: a history that ends asleep or whose probe did not run is not judged here
+        tw = twins.get((mp.group(1), settings_key(ops)))
+        if tw is None or tw not in notes:
+            continue
+        a, b = notes[sid], notes[tw]
+        if not b.get("w") or not a.get("w"):
+            continue          # the probe did not run (the history ended in a panic / unsupported call)
+        n += 1
+        for pl in b["w"].split(","):
+            if a.get("p" + pl) != b.get("p" + pl):
+                fails.append((feat, sid, f"site={mp.group(1)}/upd reason=plane-differs-from-fresh-update got=plane{pl}:{a.get('p' + pl)} want=plane{pl}:{b.get('p' + pl)}"))
+    return fails, n
 
 
 BIG_UNITS = ["d1p,640,488,16,8,r:3:4", "d1p,8,8,64,2,r:1:16", "d2p,648,0,656,492,r:2:82", "d2p,0,490,1304,4,r:5:652",
@@ -502,6 +565,10 @@ def gen_c07(tier, seed):
         parts = [u for u in A if u[0].split(",")[0] in ("part", "pold", "part2", "pachro")]
         for c in range(p.colors):
             hist = [[], ["clear"], ["sleep", "wake"]] + parts[:1]
+            # every mode-setting call of the driver (a clear_frame that looks at the stored mode),
+            # and an update + display before the clear
+            hist += [u for u in A if u[0] in ("lut,quick", "lut,full", "refresh,quick")]
+            hist += [[f"updisp,r:{rnd.randint(1, 999)}:{p.frame()}"]]
             if tier != "quick":
                 hist += [rnd.choice(A) for _ in range(6)]
             for i, h in enumerate(hist):
@@ -969,12 +1036,17 @@ def widen_hist(panel_names, tier, seed):
     for p in each_panel():
         if p.name not in panel_names:
             continue
-        A = alphabet(p, rnd, small=True)
+        A = alphabet(p, rnd, small=True) + whole_panel_partials(p, rnd)
         modes = [u for u in A if u[0].split(",")[0] in ("lut", "refresh", "bg", "wake", "border")]
         hs = [[u, v] for u in A for v in A] + [[m, u, v] for m in modes for u in A for v in A]
+        mine = []
         for i, h in enumerate(hs):
             ops = ["new"] + [o for u in h for o in u] + [f"upd,pos:{p.frame()}", "disp"]
-            lines.append(PN.line(f"wh-{p.name}-{i}", p, ops, sched=sched_for(rnd)))
+            mine.append(PN.line(f"wh-{p.name}-{i}", p, ops, sched=sched_for(rnd)))
+        keys = {settings_key(l.split(" ops=", 1)[1].split(";")) for l in mine}
+        for j, key in enumerate(sorted(keys)):
+            mine.append(PN.line(f"wtw-{p.name}-{j}", p, ["new"] + list(key) + [f"upd,pos:{p.frame()}", "disp"], sched=sched_for(rnd)))
+        lines += mine
     return lines
 
 
@@ -1110,7 +1182,7 @@ def _mk(gen, props, view, rule, feats=("v3",), assumptions=()):
 
 PROPS = {
     "C01": _mk(gen_c01, ["C01"], "logical", "every full-frame entry point of every panel (both 2.13in features) from a fresh driver with zero / position-coded / PRNG / all-ones buffers (thorough: + one-bit buffers at first, last and seam positions), followed by display; oracle: controller-model planes vs the panel's documented plane and encoding; non-trivial = scenarios whose buffer is not constant", feats=("v3", "v2")),
-    "C02": dict(widen="widen_hist", **_mk(gen_c02, ["C02"], "logical", "all histories of length <= 2 (quick; sampled to 120 / 40 pairs per small / large panel) or <= 4 (thorough, sampled) over the per-panel alphabet of protocol-respecting units, then a probe update_frame with a position-coded image; oracle: planes after the probe = the documented image at the panel origin")),
+    "C02": dict(widen="widen_hist", post="post_c02", **_mk(gen_c02, ["C02"], "logical", "all histories of length <= 2 (quick; sampled to 120 / 40 pairs per small / large panel) or <= 4 (thorough, sampled) over the per-panel alphabet of protocol-respecting units, then a probe update_frame with a position-coded image; oracle: planes after the probe = the documented image at the panel origin")),
     "C04": dict(_mk(gen_c04, ["C04"], "raw", "every unit of every panel's alphabet (and construction itself): a fault injected at every command/parameter transfer and at both ends + 5 interior points of every bulk burst (sampled to 10 per op quick / 60 thorough; fully exhaustive on 1in02, 1in54c, 2in13bc in thorough), followed by wake_up, a full-frame update and display; a fault-free twin per history; oracle: error reported, no transfer after the failed one, no panic, controller state after recovery = twin's"), post="post_c04", ctx=True),
     "C05": dict(widen="widen_c05", **_mk(gen_c05, ["C05"], "raw", "ordered pairs of protocol units per panel x busy durations {0,1,3} (quick) / 0..7 (thorough) for every episode x idle-delay {None,0,1,250}; plus explicit wait after every unit; oracle: monitor over polls/delays/commands")),
     "C06": _mk(gen_c06, ["C06"], "logical", "every partial entry point x boundary windows (single byte, single row, each edge, full panel, x>=256, y around 256) + random aligned windows (quick 4-20, thorough 40-300 per panel; all aligned x,w on panels <= 152 px wide), planes pre-filled with PRNG data so that any byte outside the window that changes is seen"),
